@@ -6,6 +6,9 @@ package clusterhash
 
 import (
 	"encoding/json"
+	"fmt"
+	"runtime/debug"
+	"strings"
 	"math/rand"
 	"testing"
 	"time"
@@ -197,6 +200,47 @@ func verifyLockJSON(b []byte, withSigs bool) (class string, detail string) {
 		}
 	}
 	return "ok", ""
+}
+
+// panicProbe runs the signature verification and the peer listing of a decoded file REGARDLESS of the
+// hash verdict (as the --no-verify loaders do: cluster.LoadClusterLock calls VerifySignatures even when
+// VerifyHashes failed) and returns the description of a panic, "" if none.
+func panicProbe(b []byte, isLock bool) (desc string) {
+	run := func(what string, f func()) {
+		defer func() {
+			if r := recover(); r != nil && desc == "" {
+				site := ""
+				for _, ln := range strings.Split(string(debug.Stack()), "\n") {
+					if strings.Contains(ln, "/charon/") || strings.Contains(ln, "/repo/") || strings.Contains(ln, "/wt_") {
+						if strings.Contains(ln, ".go:") {
+							site = strings.TrimSpace(ln)
+							break
+						}
+					}
+				}
+				desc = fmt.Sprintf("%s panicked: %v at %s", what, r, site)
+			}
+		}()
+		f()
+	}
+	if isLock {
+		var l cluster.Lock
+		if json.Unmarshal(b, &l) != nil {
+			return ""
+		}
+		run("Lock.VerifySignatures", func() { _ = l.VerifySignatures(nil) })
+		run("Lock.VerifyHashes", func() { _ = l.VerifyHashes() })
+		run("Definition.Peers", func() { _, _ = l.Peers() })
+		return desc
+	}
+	var d cluster.Definition
+	if json.Unmarshal(b, &d) != nil {
+		return ""
+	}
+	run("Definition.VerifySignatures", func() { _ = d.VerifySignatures(nil) })
+	run("Definition.VerifyHashes", func() { _ = d.VerifyHashes() })
+	run("Definition.Peers", func() { _, _ = d.Peers() })
+	return desc
 }
 
 // verifyDefJSON is verifyLockJSON for a definition file.
